@@ -7,7 +7,73 @@ jaccarddist_pairwise and gambit.util.misc.chunk_slices are run on the same input
 plain list) x dtype x chunk size x index selection x caller-supplied buffer x OpenMP thread count
 x repeated runs; every cell is compared, as a binary32 bit pattern, with
 gambit.metric.jaccarddist of the pair the cell stands for (the property's predicate) and with the
-model."""
+model.
+
+Coverage audit (statement / quantifier / API item -> stream that drives it ON THE IMPLEMENTATION; P = the
+property predicate "cell == jaccarddist(pair) bitwise, right buffer, runs agree" is judged there, M = the model
+is compared as well).  "audit-*" streams were added by the audit; kinds api / sequence / concurrent /
+envthreads are P only (outside the Coq model, see the comment above XCONT_HOMOG).
+  one query x many refs (jaccarddist_array)      array-exhaustive, random-array, audit-*              P M
+  query x reference matrix                       matrix-families, random-matrix, audit-*              P M
+  all pairs, square (symmetry, zero diagonal)    pairwise-families, random-pairwise (cell (i,j) is
+                                                 compared with d(s_i, s_j) in THAT argument order)    P M
+  all pairs, condensed                           the same streams with flat=True; offsets op 512      P M
+  containers: SignatureArray / view, HDF5 file,  all of the above (5 names)                           P M
+    SignatureList, plain list
+  other holders: tuple, AnnotatedSignatures      WAS MISSING -> audit-containers (28 names), also as  P
+    (array / list / file), gzip-compressed file,   the QUERIES container and inside audit-random-api,
+    file in a sub-group, file written through      audit-call-sequences
+    the per-signature path with string ids and an
+    odd file name, file with 32-bit bounds,
+    from_arrays with i2/i4/u4/u8 bounds, strided
+    values, junk before/after the values,
+    SignatureArray made by int-array / bool-mask /
+    stepped-slice indexing, copy constructor,
+    subclasses, list of non-contiguous signatures,
+    SignatureList over one SignatureArray
+  queries and references the same object         WAS MISSING -> audit-same-object                     P
+  dtype: 6 x 6 (query, refs) pairs               dcycle in every stream; values were all < 60000:     P M
+    values >= 2^16 / 2^32 / 2^63, colliding        WAS MISSING -> audit-wide-values (modelled kinds)
+    modulo 2^16 / 2^32
+  one list holding signatures of several dtypes  WAS MISSING -> audit-mixed-dtype-lists               P
+  collections: empty / one element / duplicates  fams, _rand_coll everywhere                          P M
+  n = 0, 1, 2 ... 40 references                  fams, schedule, random-*                             P M
+  hundreds / a thousand references, one 10^5-    WAS MISSING -> audit-many-references                 P
+    element signature among short ones
+  chunk size 1..n+2, None, <= 0                  matrix-families, malformed-chunksize, chunks-*       P M
+  chunk size >= 2^31 ... 10^30                   WAS MISSING -> audit-huge-chunksize (modelled kind)  P M
+  chunk size as NumPy scalar / bool              WAS MISSING -> audit-chunksize-forms (np.uint64 and  P
+                                                 float: an error is accepted, a wrong cell is not)
+  index selections: repeats, negative, reversed, matrix- / pairwise-families, random-*, malformed-    P M
+    out of range; list, i2/i4/i8/u2 arrays         indices
+  selections as tuple, range, array.array, lists WAS MISSING -> audit-index-forms                     P
+    of NumPy scalars, i1/u1/u8/intp/big-endian/
+    strided/read-only arrays
+  selection as a boolean mask                    WAS MISSING -> audit-bool-selection (error accepted) P
+  out buffers: C, F, every-other-element; wrong  *-families, random-*, malformed-*-out                P M
+    shape / dtype / ndim
+  out buffers: negative strides, offset block,   WAS MISSING -> audit-out-layouts (modelled kinds),    P M
+    transpose, row- / column-strided, ndarray      audit-random-api
+    subclass, np.memmap on disk
+  one buffer / index object / container reused   WAS MISSING -> audit-call-sequences (also: an array   P
+    across calls; results of earlier calls         the function allocated must keep its values after
+                                                   later calls)
+  thread counts 1..16 via omp_set_num_threads,   every stream (tcycle / randint), schedule (reps 8)   P M
+    more threads than refs, repeated runs
+  thread count from OMP_NUM_THREADS / OMP_DYNAMIC WAS MISSING -> audit-env-threads (fresh interpreter)  P
+    / OMP_THREAD_LIMIT / OMP_SCHEDULE
+  callers in several Python threads at once      WAS MISSING -> audit-concurrent-callers              P
+  call forms: keywords only                      all old streams; positional / omitted arguments,
+                                                 flat as np.bool_ / int, progress=False / True /
+                                                 meter class / factory / ProgressConfig (the form
+                                                 query(), `gambit dist` and `gambit tree` use),
+                                                 strided query: WAS MISSING -> audit-call-forms       P
+  gambit dist / gambit tree / gambit.query.query CLI cells: C16 / C17 checks; query(): C04 / C09; their
+                                                 call forms are reproduced in audit-call-forms
+  _jaccarddist_parallel directly                 schedule; non-contiguous query / values / bounds / out:
+                                                 WAS MISSING -> audit-kernel-strided                  P M
+Not covered: read-only signature arrays (gambit.metric.jaccarddist itself refuses them, so the predicate is
+undefined); interleavings below one prange iteration (explored, see TRUSTED); > 2^31 references."""
 import itertools
 import os
 
@@ -23,7 +89,13 @@ PROP = 'C05'
 RULE = ('bulk call (array / matrix / pairwise) on a collection x container x dtype x chunk size x index selection x '
         'out buffer x thread count; non-trivial: at least two cells, two cells with different values, and at least one of: '
         'a chunk boundary strictly inside the references, an explicit index selection, a caller-supplied buffer, '
-        'more than one OpenMP thread')
+        'more than one OpenMP thread.  api: the same calls with the references / queries held in any of 28 holder types, '
+        'indices / chunk size / flat written as tuples, ranges, NumPy scalars and arrays of any integer dtype, positional or '
+        'omitted arguments, progress meters, lists of mixed dtype, values over the whole dtype range; non-trivial: two '
+        'different cells and one such form present.  sequence: 2-7 calls sharing container, index object and buffers; '
+        'non-trivial: a later call has two different cells.  concurrent: 2-4 calls from Python threads at once.  envthreads: '
+        'calls in a fresh interpreter whose thread count comes from OMP_* variables; non-trivial: more than one thread.  '
+        'api / sequence / concurrent / envthreads are judged by the property predicate only (no model)')
 TRUSTED = ['tools/pyx2v.py (Cython subset -> Gallina: prange = iterations run one after the other in some order, '
            'begin/end per iteration; memoryview slice = clamped slice)',
            'OpenMP / Cython privatisation of begin,end: interleavings below iteration granularity are not modelled '
@@ -34,7 +106,7 @@ TRUSTED = ['tools/pyx2v.py (Cython subset -> Gallina: prange = iterations run on
            'assignment out[cols, i] = out[i, cols] as modelled in Model/C05.v']
 ASSUMPTIONS = ['signatures are sorted and duplicate-free (outside that the pair distance itself is unspecified)',
                'number of references < 2^31 (the prange index is a C int), array lengths < 2^62',
-               'progress meter absent (progress=None)']
+               'progress meter absent in the model (calls with a meter are judged by the property predicate only)']
 
 CONT = {'array': 0, 'hdf5': 1, 'siglist': 2, 'pylist': 3}
 GOOD_DT = ['u2', 'u4', 'u8', 'i2', 'i4', 'i8']
@@ -130,7 +202,32 @@ def _outbuf(spec):
 	if layout == 'strided':
 		big = np.full(tuple(2 * s for s in shape), fill, dtype=dt)
 		return big[tuple(slice(0, 2 * s, 2) for s in shape)]
+	# -- layouts added by the coverage audit (all are ordinary writable float32 buffers of the right shape)
+	if layout == 'neg':           # negative strides in every dimension
+		return np.full(shape, fill, dtype=dt)[tuple(slice(None, None, -1) for _ in shape)]
+	if layout == 'block':         # block at an offset inside a wider C-order array
+		wide = np.full(tuple(s + 5 for s in shape), fill, dtype=dt)
+		return wide[tuple(slice(2, 2 + s) for s in shape)]
+	if layout == 'T':             # transpose of a C-order array of the reversed shape
+		return np.full(shape[::-1], fill, dtype=dt).T
+	if layout == 'rowstrided':    # every other row of a taller array (rows unit-stride)
+		big = np.full((2 * shape[0],) + shape[1:], fill, dtype=dt)
+		return big[::2]
+	if layout == 'colstrided':    # every third element along the last axis
+		big = np.full(shape[:-1] + (3 * shape[-1],), fill, dtype=dt)
+		return big[..., ::3]
+	if layout == 'subclass':      # an ndarray subclass
+		return np.full(shape, fill, dtype=dt).view(_OutSub)
+	if layout == 'memmap' and all(s > 0 for s in shape):   # a buffer backed by a file on disk
+		_state['nfile'] = _state.get('nfile', 0) + 1
+		mm = np.memmap(os.path.join(_state['dir'], f'out{_state["nfile"]}.bin'), dtype=dt, mode='w+', shape=shape)
+		mm[...] = fill
+		return mm
 	return np.full(shape, fill, dtype=dt)
+
+
+class _OutSub(np.ndarray):
+	pass
 
 
 def _wire_out(spec, ndim):
@@ -402,6 +499,12 @@ def k_chunks(ctx, cases):
 			ctx.broke('correspondence chunks', f'{c}: impl {got} model {ans[n]}')
 
 
+def _everyother(a):
+	big = np.zeros(2 * len(a), dtype=a.dtype)
+	big[::2] = a
+	return big[::2]
+
+
 def k_schedule(ctx, cases):
 	"""the compiled prange loop itself, called directly on (values, bounds), many threads / repetitions,
 	against the generated model run sequentially and in the iteration order pi"""
@@ -425,12 +528,17 @@ def k_schedule(ctx, cases):
 		q = _arr(c['q'], 'u' + c['dq'][1])
 		v = _arr(vals, 'u' + c['dr'][1])
 		b = np.array(bounds, dtype=np.intp)
+		strided = c.get('layout') == 'strided'     # audit: every argument a non-contiguous view
+		if strided:
+			q, v, b = _everyother(q), _everyother(v), _everyother(b)
 		expect = [_pairbits(cache, c['q'], r, c['dq'], c['dr']) for r in c['refs']]
 		ctx.case(c, nontrivial=len(set(expect)) >= 2 and c['threads'] > 1)
 		_set_threads(c['threads'])
 		bad = None
 		for rep in range(c.get('reps', 1)):
 			out = np.full(len(c['refs']), np.nan, dtype=np.float32)
+			if strided:
+				out = np.full(2 * len(c['refs']), np.nan, dtype=np.float32)[::2]
 			cm._jaccarddist_parallel(q, v, b, out)
 			got = _bits(out)
 			if got != expect:
@@ -450,7 +558,535 @@ def k_schedule(ctx, cases):
 				ctx.broke('model: iteration order changes the result', f'{c}: order {mo} sequential {ms}')
 
 
-KINDS = {'array': k_array, 'matrix': k_matrix, 'pairwise': k_pairwise, 'chunks': k_chunks, 'schedule': k_schedule}
+# ---- coverage-audit kinds: containers / argument forms / call sequences outside the Coq model -------------
+# These are judged by the property's predicate alone (every cell = gambit.metric.jaccarddist of the pair it
+# stands for, as a binary32 bit pattern; result is the caller's buffer; repeated runs agree).  The model is
+# not consulted: AnnotatedSignatures, tuples, foreign bounds dtypes, NumPy-scalar arguments, progress meters,
+# signature lists of mixed dtype, shared objects across calls and concurrent callers are not modelled.
+
+XCONT_HOMOG = ['array', 'view', 'hdf5', 'siglist', 'pylist', 'tuple', 'annot-array', 'annot-siglist', 'annot-hdf5',
+               'annot-view', 'hdf5-gzip', 'hdf5-group', 'hdf5-annot', 'hdf5-b32', 'bounds-i4', 'bounds-u8', 'bounds-i2',
+               'bounds-u4', 'strided-values', 'junk-ends', 'fancy', 'boolsel', 'stepview', 'copy', 'sub-array', 'sub-list',
+               'strided-sigs', 'siglist-of-array']
+XCONT_HETERO = ['pylist', 'tuple', 'siglist', 'annot-siglist', 'sub-list', 'strided-sigs']
+XCONT_MEM = ['array', 'view', 'siglist', 'pylist', 'tuple', 'annot-array', 'bounds-i4', 'junk-ends', 'fancy']
+RI_FORMS = ['list', 'tuple', 'range', 'np:i8', 'np:i4', 'np:i2', 'np:i1', 'np:u1', 'np:u2', 'np:u8', 'np:intp', 'np:>i8', 'np:>u2',
+            'np-strided', 'np-ro', 'npscalars', 'pyarray']
+CS_FORMS = ['int', 'np.int64', 'np.int32', 'np.int16', 'np.intp', 'np.uint8', 'np.uint16', 'np.uint32', 'bool']
+CS_LENIENT = ['np.uint64', 'float']      # NumPy 1.x turns 0 + np.uint64(k) into a float: an error is accepted, a wrong cell is not
+PROGRESS = [None, 'false', 'true', 'test', 'strict', 'factory', 'config']
+
+
+def _dlist(dt, n):
+	return list(dt) if isinstance(dt, list) else [dt] * n
+
+
+def _xcont(name, sigs, dts):
+	"""-> (container, [closers]); dts = one dtype string or a list with one dtype per signature"""
+	from gambit.sigs.base import (SignatureArray, SignatureList, AnnotatedSignatures, SignaturesMeta, dump_signatures,
+	                              load_signatures)
+	from gambit.kmers import KmerSpec
+	ks = KmerSpec(11, 'AT')
+	n = len(sigs)
+	dl = _dlist(dts, n)
+	dt0 = dl[0] if dl else (dts if isinstance(dts, str) else 'u8')
+	arrs = [_sig(s, d) for s, d in zip(sigs, dl)]
+
+	def strided(a):
+		big = np.zeros(2 * len(a), dtype=a.dtype)
+		big[::2] = a
+		return big[::2]
+
+	def sa():
+		return SignatureArray(arrs, ks, dtype=np.dtype(dt0))
+
+	def newpath(stem='x'):
+		_state['nfile'] = _state.get('nfile', 0) + 1
+		return os.path.join(_state['dir'], f'{stem}{_state["nfile"]}.gs')
+
+	if name.startswith('annot-'):
+		base, closers = _xcont(name[6:], sigs, dts)
+		return AnnotatedSignatures(base, ids=[f'g{i}' for i in range(n)], meta=SignaturesMeta(id='audit', id_attr='key')), closers
+	if name == 'pylist':
+		return arrs, []
+	if name == 'tuple':
+		return tuple(arrs), []
+	if name == 'siglist':
+		return SignatureList(arrs, ks, dtype=np.dtype(dt0)), []
+	if name == 'sub-list':
+		return _SubList(arrs, ks, dtype=np.dtype(dt0)), []
+	if name == 'strided-sigs':
+		return [strided(a) for a in arrs], []
+	if len(set(dl)) > 1:
+		raise ValueError(f'{name} needs one dtype')
+	if name in ('array', 'view', 'hdf5'):
+		return _container(name, sigs, dt0), []
+	if name == 'sub-array':
+		return _SubArray(arrs, ks, dtype=np.dtype(dt0)), []
+	if name == 'copy':
+		return SignatureArray(sa()), []
+	if name == 'siglist-of-array':
+		return SignatureList(sa()), []
+	if name.startswith('bounds-'):
+		a = sa()
+		return SignatureArray.from_arrays(a.values, a.bounds.astype(name[7:]), ks), []
+	if name == 'strided-values':
+		a = sa()
+		return SignatureArray.from_arrays(strided(a.values), a.bounds, ks), []
+	if name == 'junk-ends':
+		a = sa()
+		junk = _sig([1, 1, 0], dt0)
+		return SignatureArray.from_arrays(np.concatenate([junk, a.values, junk]), a.bounds + 3, ks), []
+	if name in ('fancy', 'boolsel', 'stepview'):
+		# a SignatureArray produced by indexing a larger one (int array / bool mask / stepped slice)
+		pad = []
+		for a in arrs:
+			pad += [_sig([2, 9], dt0), a]
+		big = SignatureArray(pad + [_sig([5], dt0)], ks, dtype=np.dtype(dt0))
+		if name == 'fancy':
+			return big[[2 * i + 1 for i in range(n)]], []
+		if name == 'boolsel':
+			return big[np.array([i % 2 == 1 for i in range(2 * n + 1)], dtype=bool)], []
+		return big[1:2 * n + 1:2], []
+	if name == 'hdf5-gzip':
+		path = newpath('z')
+		dump_signatures(path, sa(), 'hdf5', compression='gzip', compression_opts=4)
+		h = load_signatures(path)
+		return h, [h.close]
+	if name == 'hdf5-annot':
+		# written through the generic per-signature path, string ids, unusual file name
+		path = newpath('a b ü[1] ')
+		dump_signatures(path, AnnotatedSignatures(SignatureList(arrs, ks, dtype=np.dtype(dt0)), ids=np.array([f'id {i}' for i in range(n)], dtype=object),
+		                                          meta=SignaturesMeta(name='audit')), 'hdf5')
+		h = load_signatures(path)
+		return h, [h.close]
+	if name == 'hdf5-group':
+		import h5py
+		from gambit.sigs.hdf5 import HDF5Signatures
+		f = h5py.File(newpath('g'), 'w')
+		h = HDF5Signatures.create(f.create_group('sets/a b'), sa())
+		return h, [f.close]
+	if name == 'hdf5-b32':
+		# a file whose bounds dataset is 32-bit (written by another tool / platform)
+		import h5py
+		path = newpath('b')
+		dump_signatures(path, sa(), 'hdf5')
+		with h5py.File(path, 'r+') as f:
+			b = f['bounds'][:]
+			del f['bounds']
+			f.create_dataset('bounds', data=b.astype('i4'))
+		h = load_signatures(path)
+		return h, [h.close]
+	raise ValueError(name)
+
+
+def _mk_subclasses():
+	from gambit.sigs.base import SignatureArray, SignatureList
+
+	class SubArray(SignatureArray):
+		pass
+
+	class SubList(SignatureList):
+		pass
+	return SubArray, SubList
+
+
+def _SubArray(*a, **kw):
+	if 'sub' not in _state:
+		_state['sub'] = _mk_subclasses()
+	return _state['sub'][0](*a, **kw)
+
+
+def _SubList(*a, **kw):
+	if 'sub' not in _state:
+		_state['sub'] = _mk_subclasses()
+	return _state['sub'][1](*a, **kw)
+
+
+def _ri_ok(idx, form):
+	"""can the (valid) index list idx be written in this form?"""
+	if form == 'range':
+		if len(idx) <= 1:
+			return True
+		step = idx[1] - idx[0]
+		return step != 0 and all(b - a == step for a, b in zip(idx, idx[1:]))
+	if form.startswith('np:'):
+		info = np.iinfo(np.dtype(form[3:]))
+		return all(info.min <= i <= info.max for i in idx)
+	if form == 'npscalars':
+		return all(-128 <= i <= 127 for i in idx)
+	return True
+
+
+def _x_index(idx, form, n=0):
+	if idx is None:
+		return None
+	if form in ('boolmask', 'boollist'):
+		# a NumPy-style boolean selection of the references; idx is the equivalent ascending index list
+		mask = [i in idx for i in range(n)]
+		return np.array(mask, dtype=bool) if form == 'boolmask' else mask
+	if form == 'list':
+		return list(idx)
+	if form == 'tuple':
+		return tuple(idx)
+	if form == 'range':
+		if not idx:
+			return range(0)
+		if len(idx) == 1:
+			return range(idx[0], idx[0] + 1)
+		step = idx[1] - idx[0]
+		return range(idx[0], idx[-1] + (1 if step > 0 else -1), step)
+	if form.startswith('np:'):
+		return np.array(idx, dtype=form[3:]) if idx else np.empty(0, dtype=form[3:])
+	if form == 'np-strided':
+		big = np.full(2 * len(idx), 10 ** 6, dtype=np.int64)
+		big[::2] = idx
+		return big[::2]
+	if form == 'np-ro':
+		a = np.array(idx, dtype=np.int64)
+		a.flags.writeable = False
+		return a
+	if form == 'npscalars':
+		ts = [np.int64, np.int32, np.int16, np.intp, np.int8]
+		return [ts[k % len(ts)](i) if i < 0 else (ts + [np.uint8, np.uint16, np.uint32])[k % 8](i) for k, i in enumerate(idx)]
+	if form == 'pyarray':
+		import array
+		return array.array('q', idx)
+	raise ValueError(form)
+
+
+def _x_chunksize(cs, form):
+	if cs is None or form == 'int':
+		return cs
+	if form == 'bool':
+		return True
+	if form == 'float':
+		return float(cs)
+	return getattr(np, form[3:])(cs)
+
+
+def _x_progress(p):
+	from gambit.util.progress import TestProgressMeter, progress_config
+	if p is None:
+		return None
+	if p == 'false':
+		return False
+	if p == 'true':
+		return True
+	if p == 'test':
+		return TestProgressMeter
+	if p == 'strict':
+		return progress_config(TestProgressMeter, allow_decrement=False)
+	if p == 'factory':
+		return lambda total, **kw: TestProgressMeter(total, **kw)
+	if p == 'config':       # what gambit.query.query / the dist and tree commands pass
+		return progress_config(TestProgressMeter).update(desc='Calculating distances')
+	raise ValueError(p)
+
+
+def _x_flat(flat, form):
+	if form == 'np':
+		return np.bool_(flat)
+	if form == 'int':
+		return 1 if flat else 0
+	return bool(flat)
+
+
+def _x_expect(c, cache):
+	"""the cells the property fixes for an api case (valid indices only) -> (bits, shape)"""
+	fn = c['fn']
+	refs = c['refs']
+	rd = _dlist(c['rdt'], len(refs))
+	idx = c.get('ri')
+	if idx is None:
+		sel = list(zip(refs, rd))
+	else:
+		sel = [(refs[_norm(len(refs), i)], rd[_norm(len(refs), i)]) for i in idx]
+	m = len(sel)
+	if fn == 'array':
+		return [_pairbits(cache, c['q'], r, c['qdt'], d) for r, d in sel], [m]
+	if fn == 'matrix':
+		if c.get('qcont') == 'same':
+			qs = list(zip(refs, rd))
+		else:
+			qs = list(zip(c['queries'], _dlist(c['qdt'], len(c['queries']))))
+		return [[_pairbits(cache, q, r, dq, d) for r, d in sel] for q, dq in qs], [len(qs), m]
+	if c.get('flat'):
+		cells = [None] * (m * (m - 1) // 2)
+		for i in range(m):
+			for j in range(i + 1, m):
+				cells[m * i - i * (i + 1) // 2 + (j - i - 1)] = _pairbits(cache, sel[i][0], sel[j][0], sel[i][1], sel[j][1])
+		return cells, [len(cells)]
+	return [[0 if i == j else _pairbits(cache, sel[i][0], sel[j][0], sel[i][1], sel[j][1]) for j in range(m)]
+	        for i in range(m)], [m, m]
+
+
+def _x_args(c, objs):
+	"""objs: dict(refs=, queries=, q=, ri=) of built implementation objects -> (function, args, kwargs) without `out`"""
+	import gambit.metric as gm
+	fn, form = c['fn'], c.get('form', 'kw')
+	if fn == 'array':
+		return gm.jaccarddist_array, [objs['q'], objs['refs']], {}
+	if fn == 'matrix':
+		opt = [('ref_indices', objs['ri']), ('out', None), ('chunksize', _x_chunksize(c.get('cs'), c.get('cs_form', 'int')))]
+		f, args = gm.jaccarddist_matrix, [objs['queries'], objs['refs']]
+	else:
+		opt = [('indices', objs['ri']), ('flat', _x_flat(c.get('flat'), c.get('flat_form', 'bool'))), ('out', None)]
+		f, args = gm.jaccarddist_pairwise, [objs['refs']]
+	kw = {}
+	if c.get('progress') is not None:
+		kw['progress'] = _x_progress(c['progress'])
+	if form == 'pos':
+		return f, args + [v for _, v in opt], kw
+	if form == 'omit':
+		kw.update({k: v for k, v in opt if v is not None and k != 'out' and not (k == 'flat' and v is False)})
+		return f, args, kw
+	kw.update({k: v for k, v in opt if k != 'out'})
+	return f, args, kw
+
+
+def _x_invoke(f, args, kw, out, form):
+	import warnings
+	with warnings.catch_warnings():
+		warnings.simplefilter('ignore')
+		if form == 'pos':
+			if f.__name__ == 'jaccarddist_array':
+				return f(*args, out)
+			a = list(args)
+			a[3] = out     # jaccarddist_matrix(queries, refs, ref_indices, OUT, chunksize) / jaccarddist_pairwise(sigs, indices, flat, OUT)
+			return f(*a, **kw)
+		if out is None and form == 'omit':
+			return f(*args, **kw)
+		return f(*args, out=out, **kw)
+
+
+def _x_build(c):
+	closers = []
+	refs, cl = _xcont(c['cont'], c['refs'], c['rdt'])
+	closers += cl
+	objs = dict(refs=refs, ri=_x_index(c.get('ri'), c.get('ri_form', 'list'), len(c['refs'])), q=None, queries=None)
+	if c['fn'] == 'array':
+		objs['q'] = _sig(c['q'], c['qdt'])
+		if c.get('qform') == 'strided':
+			big = np.zeros(2 * len(objs['q']), dtype=objs['q'].dtype)
+			big[::2] = objs['q']
+			objs['q'] = big[::2]
+	elif c['fn'] == 'matrix':
+		if c.get('qcont') == 'same':
+			objs['queries'] = refs
+		else:
+			objs['queries'], cl = _xcont(c.get('qcont') or 'pylist', c['queries'], c['qdt'])
+			closers += cl
+	return objs, closers
+
+
+def _close(closers):
+	for f in closers:
+		try:
+			f()
+		except Exception:
+			pass
+
+
+def _x_features(c):
+	"""does the case carry one of the forms this stream exists for? (for the non-triviality rule)"""
+	return bool(c['cont'] not in ('array', 'pylist', 'siglist', 'hdf5') or isinstance(c['rdt'], list) or c.get('qcont')
+	            or c.get('ri_form', 'list') != 'list' or c.get('cs_form', 'int') != 'int' or c.get('form', 'kw') != 'kw'
+	            or c.get('progress') or c.get('flat_form', 'bool') != 'bool' or c.get('qform')
+	            or (c.get('out') or {}).get('layout', 'C') != 'C')
+
+
+def k_api(ctx, cases):
+	cache = {}
+	for c in cases:
+		expect_cells, shape = _x_expect(c, cache)
+		flat = [x for row in expect_cells for x in (row if isinstance(row, list) else [row])]
+		ctx.case(c, nontrivial=len(set(flat)) >= 2 and _x_features(c))
+		closers = []
+		try:
+			objs, closers = _x_build(c)
+			f, args, kw = _x_args(c, objs)
+			_set_threads(c.get('threads', 1))
+			runs = []
+			for _ in range(c.get('reps', 1)):
+				out = _outbuf(dict(c['out'], shape=shape)) if c.get('out') else None
+				runs.append(_call(lambda: _x_invoke(f, args, kw, out, c.get('form', 'kw')), out))
+		finally:
+			_close(closers)
+		if c.get('lenient') and runs[0][0] == 'err' and all(r == runs[0] for r in runs):
+			ctx.count('api:accepted-error:' + runs[0][1].split(':')[0])
+			continue
+		_report(ctx, 'api', c, runs, ('ok', expect_cells), None,
+		        f'jaccarddist_{c["fn"]} [{c["cont"]}{"/" + str(c.get("qcont")) if c.get("qcont") else ""}, indices as {c.get("ri_form", "-")}, '
+		        f'chunksize as {c.get("cs_form", "-")}, call form {c.get("form", "kw")}, progress {c.get("progress")}]')
+
+
+def _call_obj(fn):
+	"""-> (outcome, returned object)"""
+	try:
+		r = fn()
+	except Exception as e:
+		return ('err', type(e).__name__ + ':' + str(e)[:80]), None
+	if not isinstance(r, np.ndarray) or r.dtype != np.float32:
+		return ('err', f'returned {type(r).__name__} {getattr(r, "dtype", None)}'), None
+	return ('ok', _bits(r)), r
+
+
+def k_seq(ctx, cases):
+	"""several calls one after the other on the SAME container, index object and (for steps with out='shared') the same
+	output buffer; every result is compared at once and, for results the function allocated itself, again after the
+	last call (a later call must not overwrite an array handed out earlier)"""
+	cache = {}
+	for c in cases:
+		closers = []
+		try:
+			refs, closers = _xcont(c['cont'], c['refs'], c['rdt'])
+			ri = _x_index(c.get('ri'), c.get('ri_form', 'list'), len(c['refs']))
+			shared = {}
+			done = []
+			nontriv = False
+			for k, s in enumerate(c['steps']):
+				sc = dict(s, refs=c['refs'], rdt=c['rdt'], cont=c['cont'], ri=c.get('ri') if s['fn'] != 'array' else None)
+				expect, shape = _x_expect(sc, cache)
+				flatx = [x for row in expect for x in (row if isinstance(row, list) else [row])]
+				nontriv = nontriv or (k > 0 and len(set(flatx)) >= 2)
+				objs = dict(refs=refs, ri=ri if s['fn'] != 'array' else None, q=None, queries=None)
+				if s['fn'] == 'array':
+					objs['q'] = _sig(s['q'], s['qdt'])
+				elif s['fn'] == 'matrix':
+					objs['queries'] = refs if s.get('qcont') == 'same' else [_sig(q, s['qdt']) for q in s['queries']]
+				f, args, kw = _x_args(sc, objs)
+				if s['out'] == 'shared':
+					key = (s['fn'], bool(s.get('flat')), tuple(shape))
+					if key not in shared:
+						shared[key] = np.full(tuple(shape), np.nan, dtype=np.float32)
+					out = shared[key]
+				elif s['out'] == 'fresh':
+					out = np.full(tuple(shape), np.nan, dtype=np.float32)
+				else:
+					out = None
+				_set_threads(s.get('threads', 1))
+				got, obj = _call_obj(lambda: _x_invoke(f, args, kw, out, 'kw'))
+				done.append((k, s, expect, got, obj, out))
+		finally:
+			_close(closers)
+		ctx.case(c, nontrivial=nontriv)
+		for k, s, expect, got, obj, out in done:
+			what = f'call {k} of a sequence on shared objects (jaccarddist_{s["fn"]}, out={s["out"]})'
+			if got != ('ok', expect):
+				ctx.violation('sequence', c, f'{what}: a cell differs from gambit.metric.jaccarddist of the pair it stands for '
+				              f'(or the call failed)', impl=got, spec=expect)
+				break
+			if out is not None and obj is not out:
+				ctx.violation('sequence', c, f'{what}: result is not the caller-supplied buffer', impl=got)
+				break
+			if s['out'] != 'shared' and _bits(obj) != expect:
+				ctx.violation('sequence', c, f'{what}: the returned array no longer holds its distances after later calls '
+				              f'(results of different calls share memory)', impl=_bits(obj), spec=expect)
+				break
+
+
+def k_conc(ctx, cases):
+	"""bulk calls issued at the same time from several Python threads (the kernel releases the GIL), each with its own
+	OpenMP thread count; in-memory containers only"""
+	import threading
+	cache = {}
+	for c in cases:
+		jobs = c['jobs']
+		built = []
+		for j in jobs:
+			objs, _ = _x_build(j)
+			f, args, kw = _x_args(j, objs)
+			built.append((f, args, kw))
+		barrier = threading.Barrier(len(jobs))
+		results = [[] for _ in jobs]
+
+		def work(k):
+			f, args, kw = built[k]
+			_set_threads(jobs[k].get('threads', 1))
+			try:
+				barrier.wait(timeout=30)
+			except threading.BrokenBarrierError:
+				pass
+			for _ in range(c.get('reps', 1) * (20 if ctx.replaying else 1)):    # a race does not show on every run
+				results[k].append(_call_obj(lambda: _x_invoke(f, args, kw, None, 'kw'))[0])
+		ths = [threading.Thread(target=work, args=(k,)) for k in range(len(jobs))]
+		for t in ths:
+			t.start()
+		for t in ths:
+			t.join()
+		nontriv = False
+		bad = None
+		for k, j in enumerate(jobs):
+			expect, _ = _x_expect(j, cache)
+			flatx = [x for row in expect for x in (row if isinstance(row, list) else [row])]
+			nontriv = nontriv or len(set(flatx)) >= 2
+			for rep, got in enumerate(results[k]):
+				if got != ('ok', expect) and bad is None:
+					bad = (k, rep, got, expect)
+		ctx.case(c, nontrivial=nontriv and len(jobs) >= 2)
+		if bad:
+			k, rep, got, expect = bad
+			ctx.violation('concurrent', c, f'job {k} (jaccarddist_{jobs[k]["fn"]}), run {rep}, issued together with {len(jobs) - 1} other '
+			              f'bulk call(s) from other Python threads: a cell differs from the pairwise distance (or the call failed)',
+			              impl=got, spec=expect)
+
+
+def _env_child():
+	"""child process of k_env: thread count and schedule come from the OMP_* environment, never from omp_set_num_threads"""
+	import sys
+	import json
+	c = json.load(sys.stdin)
+	from gambit._cython import threads
+	res = []
+	for j in c['jobs']:
+		objs, _ = _x_build(j)
+		f, args, kw = _x_args(j, objs)
+		res.append([_call_obj(lambda: _x_invoke(f, args, kw, None, 'kw'))[0] for _ in range(c.get('reps', 1))])
+	json.dump(dict(max_threads=threads.omp_get_max_threads(), results=res), sys.stdout)
+
+
+def k_env(ctx, cases):
+	"""the OpenMP thread count given the way users give it: OMP_NUM_THREADS (and OMP_DYNAMIC / OMP_THREAD_LIMIT /
+	OMP_SCHEDULE) in the environment of a fresh interpreter; in-memory containers only"""
+	import subprocess
+	import sys
+	import json
+	cache = {}
+	for c in cases:
+		env = {k: v for k, v in os.environ.items() if not k.startswith('OMP_') or k == 'OMP_WAIT_POLICY'}
+		env.update(c['env'])
+		nontriv = False
+		expects = []
+		for j in c['jobs']:
+			expect, _ = _x_expect(j, cache)
+			flatx = [x for row in expect for x in (row if isinstance(row, list) else [row])]
+			nontriv = nontriv or len(set(flatx)) >= 2
+			expects.append(expect)
+		try:
+			p = subprocess.run([sys.executable, '-c', 'from harness import c05; c05._env_child()'], input=json.dumps(c),
+			                   capture_output=True, text=True, env=env, timeout=600)
+			ans = json.loads(p.stdout) if p.returncode == 0 else None
+		except Exception as e:
+			p, ans = None, None
+			err = repr(e)
+		if ans is None:
+			ctx.case(c, nontrivial=False)
+			ctx.broke('envthreads child process', f'env {c["env"]}: rc {getattr(p, "returncode", None)} {(p.stderr[-600:] if p else err)}')
+			continue
+		ctx.count(f'envthreads:max_threads={ans["max_threads"]}')
+		ctx.case(c, nontrivial=nontriv and ans['max_threads'] > 1)
+		for k, (j, expect) in enumerate(zip(c['jobs'], expects)):
+			bad = [r for r in ans['results'][k] if r != ['ok', expect]]
+			if bad:
+				ctx.violation('envthreads', c, f'job {k} (jaccarddist_{j["fn"]}, {j["cont"]}) in a fresh interpreter with {c["env"]} '
+				              f'({ans["max_threads"]} OpenMP threads): a cell differs from the pairwise distance (or the call failed)',
+				              impl=bad[0], spec=expect)
+				break
+
+
+KINDS = {'array': k_array, 'matrix': k_matrix, 'pairwise': k_pairwise, 'chunks': k_chunks, 'schedule': k_schedule,
+         'api': k_api, 'sequence': k_seq, 'concurrent': k_conc, 'envthreads': k_env}
 SHRINK = False
 BATCH = 400
 
@@ -656,3 +1292,330 @@ def generate(ctx):
 				ctx.count('stream:malformed-dtype')
 				yield 'array', dict(cont=cont, dq=dq, dr=dr, q=[2, 3], refs=r, threads=1)
 				yield 'matrix', dict(cont=cont, dq=dq, dr=dr, queries=queries, refs=r, ri=None, chunksize=None, out=None, threads=1)
+
+	# ======== streams added by the coverage audit (see the table in the module docstring) ========================
+	yield from _audit_streams(ctx)
+
+
+def _top(dt):
+	bits = 8 * int(dt[1:])
+	return 2 ** (bits - 1) if dt[0] == 'i' else 2 ** bits
+
+
+def _wide_sig(rng, dt, k=None):
+	"""sorted distinct values spread over the whole range of dt, clustered at 0, 2^15, 2^16, 2^31, 2^32, 2^63, 2^64 so
+	that values of different signatures coincide exactly or modulo 2^16 / 2^32 (what a narrowing cast would confuse)"""
+	top = _top(dt)
+	offs = [o for o in (0, 2 ** 15 - 6, 2 ** 16 - 6, 2 ** 16, 2 ** 31 - 6, 2 ** 32 - 6, 2 ** 32, 2 ** 32 + 2 ** 16, 2 ** 48, 2 ** 63 - 6,
+	                    2 ** 63, 2 ** 64 - 6) if o < top]
+	pool = sorted({o + b for o in offs for b in range(6) if o + b < top})
+	k = rng.choice([0, 1, 2, 3, 5, 8, 13]) if k is None else k
+	return sorted(rng.sample(pool, min(k, len(pool))))
+
+
+def _coll(rng, n, dts, wide):
+	dl = _dlist(dts, n)
+	if not wide:
+		return _rand_coll(rng, n, rng.choice([2, 6, 20]), rng.choice([6, 40, 1000, 30000]))
+	out = []
+	for d in dl:
+		if out and rng.random() < 0.25:
+			out.append([v for v in rng.choice(out) if v < _top(d)])
+		else:
+			out.append(_wide_sig(rng, d))
+	return out
+
+
+def _api_case(rng, fn=None, n=None, wide=None, hetero=False, **over):
+	fn = fn or rng.choice(['array', 'matrix', 'matrix', 'pairwise'])
+	n = rng.choice([0, 1, 2, 3, 4, 6, 9]) if n is None else n
+	wide = (rng.random() < 0.5) if wide is None else wide
+	rdt = [rng.choice(GOOD_DT) for _ in range(n)] if hetero and n >= 2 else rng.choice(GOOD_DT)
+	c = dict(fn=fn, cont='array', refs=_coll(rng, n, rdt, wide), rdt=rdt, threads=rng.randint(1, 16), reps=rng.choice([1, 1, 2]))
+	if fn == 'array':
+		c['qdt'] = rng.choice(GOOD_DT)
+		c['q'] = _coll(rng, 1, c['qdt'], wide)[0] if rng.random() < 0.8 else []
+	elif fn == 'matrix':
+		nq = rng.choice([1, 2, 3])
+		c['qdt'] = [rng.choice(GOOD_DT) for _ in range(nq)] if hetero and nq >= 2 else rng.choice(GOOD_DT)
+		c['queries'] = _coll(rng, nq, c['qdt'], wide)
+		c['ri'] = rng.choice([None, _rand_indices(rng, n)]) if n else rng.choice([None, []])
+		nr = n if c['ri'] is None else len(c['ri'])
+		c['cs'] = rng.choice([None, 1, 2, 3, max(1, nr - 1), nr + 1, rng.randint(1, nr + 3)])
+	else:
+		c['flat'] = rng.random() < 0.5
+		c['ri'] = rng.choice([None, _rand_indices(rng, n)]) if n else rng.choice([None, []])
+	c.update(over)
+	return c
+
+
+def _fit_index_form(rng, c, form):
+	"""make the index selection of c expressible in `form` (draw a new selection if needed)"""
+	n = len(c['refs'])
+	if c.get('ri') is None or not _ri_ok(c['ri'], form):
+		if n == 0:
+			c['ri'] = []
+		elif form == 'range':
+			step = rng.choice([1, 2, -1, -2, 3])
+			start = rng.randint(-n, n - 1)
+			c['ri'] = [i for i in range(start, start + step * rng.randint(1, n + 1), step) if -n <= i < n]
+		elif form in ('np:u1', 'np:u2', 'np:u8', 'np:>u2'):
+			c['ri'] = [rng.randrange(n) for _ in range(rng.choice([1, n, n + 2]))]
+		else:
+			c['ri'] = _rand_indices(rng, n)
+	c['ri_form'] = form
+	return c
+
+
+def _audit_streams(ctx):
+	rng = ctx.rng
+	mem = ['array', 'siglist', 'pylist', 'view']
+	conts5 = ['array', 'hdf5', 'siglist', 'pylist', 'view']
+	tcycle = itertools.cycle(range(1, 17))
+	dcycle = itertools.cycle([(a, b) for a in GOOD_DT for b in GOOD_DT])
+	K = ctx.pick(2, 6)
+
+	# -- (a) more caller-supplied buffer layouts, through the modelled kinds (model compared as well)
+	lay2 = ['neg', 'block', 'T', 'rowstrided', 'colstrided', 'subclass', 'memmap']
+	for lay in lay2:
+		for cont in conts5:
+			for _ in range(2 * K):
+				n = rng.choice([2, 3, 5, 8])
+				refs = _rand_coll(rng, n, 10, rng.choice([6, 40]))
+				dq, dr = next(dcycle)
+				ctx.count('stream:audit-out-layouts')
+				yield 'array', dict(cont=cont, dq=dq, dr=dr, q=_rand_sig(rng, rng.randint(0, 6), 40), refs=refs,
+				                    out=dict(shape=[n], layout=lay), threads=next(tcycle), reps=2)
+				queries = _rand_coll(rng, rng.choice([1, 2, 3]), 10, 40)
+				ri = rng.choice([None, _rand_indices(rng, n)])
+				nr = n if ri is None else len(ri)
+				yield 'matrix', dict(cont=cont, dq=dq, dr=dr, queries=queries, refs=refs, ri=ri, ri_kind='list',
+				                     chunksize=rng.choice([None, 1, 2, 3, nr]), out=dict(shape=[len(queries), nr], layout=lay),
+				                     threads=next(tcycle), reps=2)
+				for flat in (False, True):
+					idx = rng.choice([None, _rand_indices(rng, n)])
+					m = n if idx is None else len(idx)
+					yield 'pairwise', dict(cont=cont, d=dr, sigs=refs, indices=idx, idx_kind='list', flat=flat,
+					                       out=dict(shape=[m * (m - 1) // 2] if flat else [m, m], layout=lay), threads=next(tcycle))
+
+	# -- (b) values over the whole range of each dtype (>= 2^16, 2^32, 2^63), mixed widths, through the modelled kinds
+	for _ in range(120 * K):
+		dq, dr = next(dcycle)
+		n = rng.choice([1, 2, 3, 5, 8])
+		refs = _coll(rng, n, dr, True)
+		cont = rng.choice(conts5)
+		which = rng.choice(['array', 'matrix', 'pairwise'])
+		ctx.count('stream:audit-wide-values')
+		if which == 'array':
+			yield 'array', dict(cont=cont, dq=dq, dr=dr, q=_wide_sig(rng, dq), refs=refs, threads=next(tcycle),
+			                    out=rng.choice([None, dict(shape=[n], layout='strided')]))
+		elif which == 'matrix':
+			queries = [_wide_sig(rng, dq) for _ in range(rng.choice([1, 2, 3]))]
+			ri = rng.choice([None, _rand_indices(rng, n)])
+			nr = n if ri is None else len(ri)
+			yield 'matrix', dict(cont=cont, qcont=rng.choice([None, 'array', 'siglist']), dq=dq, dr=dr, queries=queries, refs=refs,
+			                     ri=ri, ri_kind='list', chunksize=rng.choice([None, 1, 2, nr + 1]), out=None, threads=next(tcycle))
+		else:
+			yield 'pairwise', dict(cont=cont, d=dr, sigs=refs, indices=rng.choice([None, _rand_indices(rng, n)]), idx_kind='list',
+			                       flat=rng.random() < 0.5, out=None, threads=next(tcycle))
+
+	# -- (c) chunk sizes far beyond the number of references (Python ints of any size), through the modelled kind
+	for cs in (2 ** 31 - 1, 2 ** 31, 2 ** 32, 2 ** 63 - 1, 2 ** 63, 2 ** 64, 10 ** 30):
+		for cont in conts5:
+			for ri in (None, [2, 0, 0, -1]):
+				dq, dr = next(dcycle)
+				ctx.count('stream:audit-huge-chunksize')
+				yield 'matrix', dict(cont=cont, dq=dq, dr=dr, queries=[[2, 3], []], refs=[[1, 2, 3], [], [2, 3, 4, 9]], ri=ri,
+				                     ri_kind='list', chunksize=cs, out=rng.choice([None, dict(shape=[2, 3 if ri is None else 4])]),
+				                     threads=next(tcycle))
+
+	# -- (d) many references (hundreds to a thousand) with every thread count class and chunk sizes around 2^k
+	for n in ctx.pick([100, 257, 1000], [100, 257, 1000, 1000, 4097]):
+		refs = _rand_coll(rng, n, 12, 60)
+		for cont in ('array', 'hdf5', 'pylist', 'annot-array'):
+			ctx.count('stream:audit-many-references')
+			yield 'api', dict(fn='array', cont=cont, refs=refs, rdt='u4', q=_rand_sig(rng, 8, 60), qdt='u2', threads=16, reps=2)
+			ri = [rng.randrange(-n, n) for _ in range(n + 7)]
+			yield 'api', dict(fn='matrix', cont=cont, refs=refs, rdt='u4', queries=_rand_coll(rng, 2, 12, 60), qdt='u8', ri=ri,
+			                  ri_form='np:i8', cs=rng.choice([63, 64, 65, 255, 256, n - 1]), threads=rng.choice([3, 7, 16]), reps=1)
+		if n <= 260:
+			ctx.count('stream:audit-many-references')
+			yield 'api', dict(fn='pairwise', cont='array', refs=refs, rdt='u4', flat=True, ri=None, threads=16, reps=1)
+	# one very long signature among short ones (unbalanced iterations under the dynamic schedule)
+	for _ in range(2 * K):
+		refs = _rand_coll(rng, 12, 5, 40)
+		refs[rng.randrange(12)] = sorted(rng.sample(range(400000), 100000))
+		ctx.count('stream:audit-many-references')
+		yield 'api', dict(fn='array', cont='array', refs=refs, rdt='u4', q=sorted(rng.sample(range(400000), 50000)), qdt='u4',
+		                  threads=rng.choice([2, 5, 16]), reps=3)
+
+	# -- (d2) the compiled loop called directly with non-contiguous query / values / bounds / out
+	for _ in range(20 * K):
+		n = rng.choice([0, 1, 2, 5, 17, 40])
+		refs = _rand_coll(rng, n, rng.choice([3, 30]), rng.choice([8, 64, 4096]))
+		pi = list(range(n))
+		rng.shuffle(pi)
+		dq, dr = next(dcycle)
+		ctx.count('stream:audit-kernel-strided')
+		yield 'schedule', dict(q=_rand_sig(rng, rng.choice([0, 1, 5, 50]), 4096), refs=refs, pi=pi, dq=dq, dr=dr,
+		                       threads=rng.randint(1, 16), reps=4, layout='strided')
+
+	for cont in XCONT_HOMOG:
+		for fn in ('array', 'matrix', 'pairwise'):
+			for k in range(3 * K):
+				ctx.count('stream:audit-containers')
+				c = _api_case(rng, fn=fn, n=rng.choice([0, 1, 2, 3, 5, 8]) if k else 4, cont=cont)
+				if fn == 'matrix' and rng.random() < 0.5:
+					c['qcont'] = rng.choice(XCONT_HOMOG + ['same'])
+					if c['qcont'] not in XCONT_HETERO and isinstance(c['qdt'], list):
+						c['qdt'] = c['qdt'][0]
+				if rng.random() < 0.3:
+					c['out'] = dict(layout=rng.choice(['C', 'F', 'strided', 'neg', 'block']))
+				yield 'api', c
+
+	# -- (f) every way of writing the index selection
+	for form in RI_FORMS:
+		for fn in ('matrix', 'pairwise'):
+			for cont in ('array', 'hdf5', 'siglist', 'pylist', 'annot-array'):
+				for _ in range(K):
+					ctx.count('stream:audit-index-forms')
+					yield 'api', _fit_index_form(rng, _api_case(rng, fn=fn, n=rng.choice([1, 2, 3, 5, 8]), cont=cont), form)
+
+	# -- (g) chunk size given as a NumPy scalar / bool
+	for form in CS_FORMS + CS_LENIENT:
+		for cont in ('array', 'hdf5', 'siglist', 'pylist', 'view', 'annot-hdf5'):
+			for _ in range(2 * K):
+				c = _api_case(rng, fn='matrix', n=rng.choice([2, 3, 5, 8, 13]), cont=cont)
+				nr = len(c['refs']) if c['ri'] is None else len(c['ri'])
+				c['cs'] = 1 if form == 'bool' else rng.choice([1, 2, 3, max(1, nr - 1), max(1, nr), nr + 1, 100])
+				c['cs_form'] = form
+				c['lenient'] = form in CS_LENIENT
+				ctx.count('stream:audit-chunksize-forms')
+				yield 'api', c
+
+	# -- (h) call forms: positional / omitted arguments, flat as NumPy bool or int, progress meters, strided query
+	for form in ('kw', 'pos', 'omit'):
+		for prog in PROGRESS:
+			for _ in range(3 * K):
+				c = _api_case(rng, cont=rng.choice(conts5 + ['annot-array', 'tuple']), form=form)
+				if c['fn'] != 'array':
+					c['progress'] = prog
+				else:
+					c['qform'] = rng.choice([None, 'strided'])
+				if c['fn'] == 'pairwise':
+					c['flat_form'] = rng.choice(['bool', 'np', 'int'])
+				if rng.random() < 0.4:
+					c['out'] = dict(layout=rng.choice(['C', 'F', 'strided', 'T']))
+				ctx.count('stream:audit-call-forms')
+				yield 'api', c
+
+	# -- (i) plain lists / SignatureLists whose signatures have different dtypes, values over each dtype's range
+	for cont in XCONT_HETERO:
+		for fn in ('array', 'matrix', 'pairwise'):
+			for _ in range(6 * K):
+				c = _api_case(rng, fn=fn, n=rng.choice([2, 3, 4, 6]), wide=True, hetero=True, cont=cont)
+				if fn == 'matrix' and isinstance(c['qdt'], list):
+					c['qcont'] = rng.choice(XCONT_HETERO)
+				ctx.count('stream:audit-mixed-dtype-lists')
+				yield 'api', c
+
+	# -- (j) the same object as queries and references (what the pairwise docstring compares itself with)
+	for cont in ('array', 'hdf5', 'siglist', 'pylist', 'annot-array', 'view', 'tuple'):
+		for _ in range(4 * K):
+			c = _api_case(rng, fn='matrix', n=rng.choice([1, 2, 3, 5, 8]), cont=cont, qcont='same')
+			ctx.count('stream:audit-same-object')
+			yield 'api', c
+
+	# -- (k) random combinations of all of the above
+	for _ in range(ctx.pick(700, 5000)):
+		hetero = rng.random() < 0.25
+		c = _api_case(rng, hetero=hetero)
+		c['cont'] = rng.choice(XCONT_HETERO if isinstance(c['rdt'], list) else XCONT_HOMOG)
+		if c['fn'] == 'matrix':
+			if isinstance(c['qdt'], list):
+				c['qcont'] = rng.choice(XCONT_HETERO)
+			elif rng.random() < 0.5:
+				c['qcont'] = rng.choice(XCONT_HOMOG + ['same'])
+			if c['cs'] is not None and rng.random() < 0.4:
+				form = rng.choice(CS_FORMS[:8])
+				c['cs_form'] = form
+		if c['fn'] != 'array':
+			if rng.random() < 0.5:
+				_fit_index_form(rng, c, rng.choice(RI_FORMS))
+			c['progress'] = rng.choice(PROGRESS)
+			c['form'] = rng.choice(['kw', 'pos', 'omit'])
+		if rng.random() < 0.4:
+			c['out'] = dict(layout=rng.choice(['C', 'F', 'strided', 'neg', 'block', 'T', 'rowstrided', 'colstrided', 'subclass', 'memmap']))
+		ctx.count('stream:audit-random-api')
+		yield 'api', c
+
+	# -- (l) sequences of calls sharing the container, the index object and output buffers
+	for _ in range(ctx.pick(150, 1000)):
+		n = rng.choice([2, 3, 4, 6, 9])
+		hetero = rng.random() < 0.2
+		rdt = [rng.choice(GOOD_DT) for _ in range(n)] if hetero else rng.choice(GOOD_DT)
+		wide = rng.random() < 0.4
+		c = dict(cont=rng.choice(XCONT_HETERO if hetero else XCONT_HOMOG), refs=_coll(rng, n, rdt, wide), rdt=rdt)
+		c['ri'] = rng.choice([None, _rand_indices(rng, n)])
+		c['ri_form'] = 'list'
+		if c['ri'] is not None:
+			_fit_index_form(rng, c, rng.choice(RI_FORMS))
+		m = n if c['ri'] is None else len(c['ri'])
+		steps = []
+		for _ in range(rng.choice([2, 3, 5, 7])):
+			fn = rng.choice(['array', 'matrix', 'pairwise'])
+			s = dict(fn=fn, out=rng.choice(['none', 'none', 'shared', 'shared', 'fresh']), threads=rng.randint(1, 16))
+			if fn == 'array':
+				s['qdt'] = rng.choice(GOOD_DT)
+				s['q'] = _coll(rng, 1, s['qdt'], wide)[0]
+			elif fn == 'matrix':
+				s['qdt'] = rng.choice(GOOD_DT)
+				s['queries'] = _coll(rng, 2, s['qdt'], wide)     # always two queries so that shapes repeat between steps
+				s['cs'] = rng.choice([None, 1, 2, m + 1])
+				if rng.random() < 0.15:
+					s['qcont'] = 'same'
+			else:
+				s['flat'] = rng.random() < 0.5
+			steps.append(s)
+		c['steps'] = steps
+		ctx.count('stream:audit-call-sequences')
+		yield 'sequence', c
+
+	# -- (f2) a boolean mask as the selection: the functions document index lists only, so an error is accepted; a returned
+	#    array must hold exactly the selected references' distances
+	for form in ('boolmask', 'boollist'):
+		for fn in ('matrix', 'pairwise'):
+			for cont in ('array', 'hdf5', 'pylist'):
+				for full in (True, False):
+					n = rng.choice([2, 3, 5])
+					c = _api_case(rng, fn=fn, n=n, cont=cont)
+					c['ri'] = list(range(n)) if full else sorted(rng.sample(range(n), rng.randint(1, n - 1)))
+					c['ri_form'] = form
+					c['lenient'] = True
+					ctx.count('stream:audit-bool-selection')
+					yield 'api', c
+
+	# -- (n) thread count / schedule from the OMP_* environment of a fresh interpreter
+	envs = [dict(OMP_NUM_THREADS='1'), dict(OMP_NUM_THREADS='3'), dict(OMP_NUM_THREADS='16', OMP_DYNAMIC='true'),
+	        dict(OMP_NUM_THREADS='32', OMP_SCHEDULE='static,1'), dict(OMP_NUM_THREADS='7', OMP_THREAD_LIMIT='2'),
+	        dict(OMP_NUM_THREADS='4,2', OMP_NESTED='true'), dict(), dict(OMP_NUM_THREADS='2', OMP_PROC_BIND='close')]
+	for env in envs[:ctx.pick(4, 8)]:
+		jobs = []
+		for _ in range(ctx.pick(40, 200)):
+			j = _api_case(rng, n=rng.choice([2, 3, 6, 9, 30, 100]), cont=rng.choice(XCONT_MEM))
+			j.pop('reps', None)
+			j.pop('threads', None)
+			jobs.append(j)
+		ctx.count('stream:audit-env-threads')
+		yield 'envthreads', dict(env=env, jobs=jobs, reps=2)
+
+	# -- (m) bulk calls issued together from several Python threads
+	for _ in range(ctx.pick(50, 400)):
+		jobs = []
+		for _ in range(rng.choice([2, 3, 4])):
+			j = _api_case(rng, n=rng.choice([3, 6, 9, 30]), cont=rng.choice(XCONT_MEM))
+			j['threads'] = rng.randint(1, 4)
+			j.pop('reps', None)
+			jobs.append(j)
+		ctx.count('stream:audit-concurrent-callers')
+		yield 'concurrent', dict(jobs=jobs, reps=3)
